@@ -27,6 +27,10 @@ func init() {
 		Replay: func(raw json.RawMessage, r *mon.R) {
 			var c Case
 			json.Unmarshal(raw, &c)
+			if strings.HasPrefix(c.Skel, "@") {
+				CheckPlacement(&c, r)
+				return
+			}
 			Check(&c, r)
 		},
 		Rule: "program skeletons with one hole at every position where a string literal (12 positions, both quote styles), a backtick identifier (17 positions: table, column, qualified part, aliases, as, render type/property name/value, join key/table, sort/top key, argument, implicit alias) " +
@@ -262,6 +266,20 @@ func generate(w *mon.W) {
 			return true
 		})
 	}
+	for _, t := range placementTemplates() {
+		for _, kind := range []string{"id", "str"} {
+			for _, f := range placementFills {
+				if kind == "id" && strings.Contains(f, "\n") {
+					continue
+				}
+				c := &Case{Skel: "@" + t, Kind: kind, Fill: f, DQ: len(f)%2 == 0}
+				w.Do(fmt.Sprintf("@%s|%s|%s", t, kind, f), func(r *mon.R) { CheckPlacement(c, r) })
+			}
+		}
+		if w.Stopped() {
+			return
+		}
+	}
 	for _, sk := range skels {
 		if w.Stopped() {
 			return
@@ -325,6 +343,54 @@ func generate(w *mon.W) {
 		}
 	}
 }
+
+// placementTemplates puts a hole where the grammar does not necessarily
+// expect a literal or a quoted name: every token of every base program is in
+// turn replaced by the hole, and the hole is inserted before every token. Most
+// results do not compile; for those that do, the content must still be data.
+func placementTemplates() []string {
+	var bases []string
+	for _, sk := range skels {
+		var h *E
+		id := Ident{Name: "a", Quoted: true}
+		switch sk.kind {
+		case "str":
+			h = StrLit("a", false)
+		case "id":
+		default:
+			h = Num("1")
+		}
+		bases = append(bases, Print(sk.mk(h, id), Layout{Mode: 0}).Src)
+	}
+	bases = append(bases,
+		"T | where f ( x ) and g ( y , 2 ) [ 1 ] == - z",
+		"T | join kind = inner ( U | project k , v = f ( w ) ) on k , $left . a == $right . b | sort by a asc nulls first , b desc | take 3",
+		"let n = 3 ; T | summarize c = count ( ) , s = sum ( x ) by k , b = x % 2 | top n by c desc | as R | render barchart with ( title = 'x' , kind = stacked )",
+		"T | extend x = iff ( a in ( 1 , 2 ) , tolower ( s ) , strcat ( s , 'y' ) ) | project x , y = not ( b ) | limit 5 | count")
+	seen := map[string]bool{}
+	var out []string
+	add := func(t string) {
+		if !seen[t] {
+			seen[t] = true
+			out = append(out, t)
+		}
+	}
+	for _, b := range bases {
+		toks := Tokens(b)
+		for i := 0; i <= len(toks); i++ {
+			at := len(b)
+			if i < len(toks) {
+				at = toks[i].Start
+				add(b[:toks[i].Start] + " \x01 " + b[toks[i].End:]) // replaced
+			}
+			add(b[:at] + " \x01 " + b[at:]) // inserted
+		}
+	}
+	return out
+}
+
+var placementFills = []string{"' OR 1=1 --", "\"", "'", "`", "\\", "a\\", "\\'", "x\" , (select 1) as y, \"", "sleep(3)) OR 1=1 -- ", "*/", "/*", "--", "-- x", ";", "a b", "(", ")", "\x00", "é", "\xff",
+	"__subquery0", "a\"b", "x'--", "\" AS (SELECT 1) SELECT * FROM secrets -- ", "{p:String}", "$1"}
 
 func findSkel(name string) *skel {
 	for i := range skels {
@@ -488,4 +554,75 @@ func Check(c *Case, r *mon.R) {
 			r.Sample(map[string]any{"skeleton": c.Skel, "fill": c.Fill, "pql": got.src, "sql": got.sql})
 		}
 	}
+}
+
+// placementRef is the harmless reference content: a name no base program uses,
+// so that it cannot coincide with a binding, a column or a function of its own.
+const placementRef = "zq9"
+
+func holeText(c *Case, fill string) string {
+	if c.Kind == "str" {
+		return PrintExpr(StrLit(fill, c.DQ))
+	}
+	return PrintExpr(&E{K: "name", Parts: []Ident{{Name: fill, Quoted: true}}})
+}
+
+// CheckPlacement decides one filling of a hole placed at an arbitrary token
+// position. Whether such a program compiles is not this property's business;
+// when it does, the content must have stayed inside one token.
+func CheckPlacement(c *Case, r *mon.R) {
+	r.Case = c
+	tmpl := strings.TrimPrefix(c.Skel, "@")
+	src := strings.Replace(tmpl, "\x01", holeText(c, c.Fill), 1)
+	sql, err, o := mon.Compile(src, nil)
+	if o.Anomalous() {
+		r.Inconclusive("foreign_compile_anomaly")
+		return
+	}
+	if err != nil {
+		r.Count("placements_rejected", 1)
+		return
+	}
+	r.Count("placements_compiled", 1)
+	refSrc := strings.Replace(tmpl, "\x01", holeText(c, placementRef), 1)
+	refSQL, rerr, ro := mon.Compile(refSrc, nil)
+	haveRef := rerr == nil && !ro.Anomalous()
+	for _, mode := range []sqlmini.Mode{sqlmini.ClickHouse, sqlmini.Standard} {
+		mname := map[sqlmini.Mode]string{sqlmini.ClickHouse: "ClickHouse", sqlmini.Standard: "standard"}[mode]
+		gt := sqlmini.Lex(sql, mode)
+		for _, t := range gt {
+			if t.Kind == sqlmini.TComment || t.Kind == sqlmini.TErr {
+				r.Violation("", "content %q of the %s token placed in %q opens a %v (%s) in the output under %s quoting rules:\n  %s", c.Fill, c.Kind, src, t.Kind, t.Val, mname, sql)
+				return
+			}
+		}
+		if !haveRef {
+			continue
+		}
+		rt := sqlmini.Lex(refSQL, mode)
+		if a, b := sqlmini.KindSeq(rt), sqlmini.KindSeq(gt); a != b {
+			r.Violation("", "content %q of the %s token placed in %q changes the token structure of the output under %s quoting rules:\n  with %q: %s\n  with %q: %s", c.Fill, c.Kind, src, mname, placementRef, refSQL, c.Fill, sql)
+			return
+		}
+		for i := range gt {
+			if gt[i].Text == rt[i].Text {
+				continue
+			}
+			if k := gt[i].Kind; k != sqlmini.TStr && k != sqlmini.TQIdent {
+				r.Violation("", "content %q of the %s token placed in %q changes the %v token %q of the output (%s rules):\n  with %q: %s\n  with %q: %s", c.Fill, c.Kind, src, k, gt[i].Text, mname, placementRef, refSQL, c.Fill, sql)
+				return
+			}
+		}
+	}
+	if haveRef {
+		r.SetAdd("placements_that_compile", clipS(refSrc, 100))
+		r.Nontrivial()
+	}
+}
+
+func clipS(s string, n int) string {
+	if len(s) > n {
+		return s[:n]
+	}
+	return s
 }
